@@ -101,6 +101,12 @@ class Ctx:
         """cases: list of (coq_term, python_case_object).  Returns list of failing python objects."""
         if not cases:
             return []
+        if getattr(self, 'pending_broken', None):
+            # the Coq development (or a regenerated table) no longer builds: the model cannot be evaluated;
+            # the broken obligation itself is reported as a violation by finish(), the oracle streams still run
+            self.obligations.append({'name': 'corr %s: %d cases NOT evaluated (Coq closure does not build)' % (stream, len(cases)),
+                                     'kind': 'corr', 'ok': False, 'detail': self.pending_broken[0]['what']})
+            return []
         wd = os.path.join(self.scratch, 'coq_' + stream)
         failing, nshards = coqrun.eval_cases(wd, header, check_fn, case_type, [c[0] for c in cases],
                                              shard_chars=shard_chars, log=self.log)
